@@ -36,6 +36,8 @@ def cart_regions():
                         flags=[0 if i == 7 else 1 for i in range(29)]),
         # two blocks separated by an entirely missing column (column 2)
         'cart5x2gap': dict(cells=[g(c, r) for r in range(2) for c in (0, 1, 3, 4)], flags=None),
+        # a lattice across the antimeridian in the 0..360 longitude convention (origins 179.8 .. 180.1)
+        'cart4x1east': dict(cells=[g(c, 0) for c in (1798, 1799, 1800, 1801)], flags=None),
     }
 
 
@@ -113,7 +115,7 @@ def cases(tier, seed):
         for grid in SMALL_GRIDS:
             for bound in (True, False):
                 for size in range(0, mx + 1):
-                    if rname == 'cart5x2gap' and size > 2:
+                    if rname in ('cart5x2gap', 'cart4x1east') and size > 2:
                         continue
                     if tier == 'quick' and size == 3 and (grid, bound) != ('m567', True):
                         continue
@@ -343,6 +345,23 @@ def judge_catalog(rname, grid, bound, letters, pos, mags, edges, failures, hsh, 
                         fail('spatial_magnitude_counts', 'region-grid-not-used-after-a-call-with-an-explicit-grid', f'got shape {h_sm.shape}, expected {want.shape}: {want.tolist()}')
         except Exception as e:
             fail('magnitude_counts', f'{type(e).__name__}-after-a-call-with-an-explicit-grid', f'{type(e).__name__}: {e}')
+    # I. history (quadtree): the region was first used for get_cartesian() (what plotting a forecast does), then the catalog is gridded
+    if quad and hist and len(evs) > 0:
+        try:
+            qreg = build_region(rname, edges if bound else None)
+            qreg.get_cartesian(numpy.arange(len(qreg.polygons), dtype=float))
+            try:
+                q_sp = numpy.asarray(fixtures.catalog(evs, region=qreg).spatial_counts(), dtype=float)
+            except Exception:
+                q_sp = None                   # rejecting an out-of-region event is allowed
+            evals += 1
+            if q_sp is None:
+                if all_in:
+                    fail('spatial_counts', 'raises-after-get_cartesian', 'all events are inside the region')
+            elif not numpy.array_equal(q_sp, want_sp):
+                fail('spatial_counts', 'event-counted-in-wrong-cell-after-get_cartesian', f'after region.get_cartesian(): got {q_sp.tolist()}, expected {want_sp.tolist()}')
+        except Exception as e:
+            fail('get_cartesian', type(e).__name__, f'{type(e).__name__}: {e}')
     # F. marginal identities
     if sm is not None and all_in and all_mag:
         if sm.sum() != len(evs):
